@@ -106,7 +106,8 @@ impl LinearLocatorState {
             line_start,
             line_end,
             line_number,
-            cursor: line_start,
+            // the BOM is not a column, but offsets before it (the start of the source) can be located
+            cursor: TextSize::default(),
             is_ascii,
         }
     }
@@ -209,7 +210,9 @@ impl<'a> LinearLocator<'a> {
             };
             (column, Some(state))
         } else {
-            let column = (offset - self.state.line_start).to_u32();
+            let column = offset
+                .to_u32()
+                .saturating_sub(self.state.line_start.to_u32());
             (column, None)
         };
         let state = new_state.as_ref().unwrap_or(&self.state);
